@@ -423,7 +423,7 @@ func faultPlan(tier string) []Plan {
 	if tier == "thorough" {
 		return []Plan{{Cases: 960, Workers: 16, MaxProcs: 1, Timeout: 90 * time.Minute}, {Cases: 320, Workers: 8, MaxProcs: 4, Timeout: 90 * time.Minute}}
 	}
-	return []Plan{{Cases: 24, Workers: 12, MaxProcs: 1, Timeout: 15 * time.Minute}, {Cases: 6, Workers: 6, MaxProcs: 4, Timeout: 15 * time.Minute}}
+	return []Plan{{Cases: 96, Workers: 16, MaxProcs: 1, Timeout: 15 * time.Minute}, {Cases: 24, Workers: 8, MaxProcs: 4, Timeout: 15 * time.Minute}}
 }
 
 func init() {
